@@ -91,7 +91,7 @@ class Ctx(object):
 
 def plan(tier, seed):
     from hv import scen
-    n = 10 if tier == 'quick' else 400
+    n = 10 if tier == 'quick' else 160
     sp = []
     for y in (2021, 2022, 2023):
         for g in ([scen.FAMILIES[0:3], scen.FAMILIES[3:6], scen.FAMILIES[6:9], scen.FAMILIES[9:12]] if tier == 'quick' else [[f] for f in scen.FAMILIES]):
@@ -318,8 +318,7 @@ def run_shard(spec, tier, seed):
                 for f in forms:
                     for fld in out.solver.forms[f].fields():
                         names.append(fld.name())
-                q = scen.Persona(p.year, p.family, p.key, overrides=dict(p.answers))
-                q.nc = p.nc
+                q = p      # the same persona answers whatever else is asked (its answers are a function of the input name)
                 from hv import trace as _tr
                 with _tr.Tracer(ceiling=realwork.CEILING) as t2:
                     classes = __import__('hv.hx', fromlist=['catalogue']).catalogue(year)
